@@ -121,3 +121,19 @@ Proof.
          g_two_nodes, supply, (fst w_switch_late), EAssert.
   split; [exact g_two_nodes_wf|]. split; [vm_compute; reflexivity|differs].
 Qed.
+
+(* peer: two top-level services 30 and 31; 31 already has an interface named "b-a": the ServicePort "a-b"
+   is added to 30 before the second step is refused *)
+Definition g_two_services : graph :=
+  mkGraph [mkNode 30 cNS (S "a") tL2Bridge 1; mkNode 31 cNS (S "b") tL2Bridge 1; mkNode 32 cCP (S "b-a") tServicePort 2]
+          [mkEdge 31 32 rConnects].
+
+Definition w_peer_late : st * res unit := op_peer Experiment 30 31 None (mkSt g_two_services supply).
+
+Lemma peer_atomic_refuted :
+  exists fl a b pure g fresh s',
+    wf_graph g = true /\ op_peer fl a b pure (mkSt g fresh) = (s', Err ETopology) /\ sg s' <> g.
+Proof.
+  exists Experiment, 30, 31, None, g_two_services, supply, (fst w_peer_late).
+  split; [vm_compute; reflexivity|]. split; [vm_compute; reflexivity|differs].
+Qed.
